@@ -126,6 +126,16 @@ def execute(tr):
                 o["cont"] = project(m)
                 out.append(o)
                 continue
+            elif k == "nested_set":
+                try:
+                    g = m.get_group_by_index(o["tag"], o["index"])
+                except Exception:
+                    g = None
+                if g is None:
+                    o["res"] = "unspecified"
+                else:
+                    g.set(o["ntag"], o["sval"], replace=True)
+                    o["res"] = "ok"
             elif k == "set_group":
                 m.set_group(spell(o["tag"], o["sp"]), [{e["tag"]: e["val"] for e in it} for it in o["items"]])
                 o["res"] = "ok"
@@ -241,6 +251,15 @@ def run(ctx):
                 greads = [{"op": "gindex", "tag": gt, "index": i} for i in (0, 1, 2, 3)] + \
                          [{"op": "gtag", "tag": gt, "gtag": a, "gval": b} for a, b in (("79", "y"), ("79", "x"), ("80", "q"), ("80", "nope"), ("81", "q"))]
             traces.append({"id": "s%d.m%d" % (si, mi), "ops": list(p) + [m] + battery(None)[-9:] + [{"op": "glist", "tag": "78"}, {"op": "get", "tag": "1", "sp": "int", "dflt": "none"}] + greads})
+    # equality before and after a change made INSIDE a group item (through the object an accessor returned)
+    eq_self = {"op": "eqc", "other": "SELF"}
+    for si, p in enumerate(paths):
+        for idx in (0, 1):
+            for ntag, sv in (("79", "changed"), ("80", "new")):
+                traces.append({"id": "s%d.n%d%s" % (si, idx, ntag),
+                               "ops": list(p) + [eq_self, {"op": "nested_set", "tag": "78", "index": idx, "ntag": ntag, "sval": sv}, eq_self,
+                                                 {"op": "eqd", "pairs": "SELF"}, {"op": "glist", "tag": "78"}, {"op": "pickle"},
+                                                 {"op": "nested_set", "tag": "78", "index": idx, "ntag": ntag, "sval": "again"}, eq_self]})
     rng = random.Random(ctx.seed * 37 + 18)
     nr = 600 if q else 10000
     traces += [random_trace(rng, "r%d" % i) for i in range(nr)]
